@@ -8,8 +8,9 @@ import json, os, shutil, subprocess, sys
 ID, n, pkg, test = sys.argv[1:5]
 modfile = sys.argv[sys.argv.index("--modfile") + 1] if "--modfile" in sys.argv else None
 check_ids = sys.argv[sys.argv.index("--checks") + 1].split(",") if "--checks" in sys.argv else [ID]
-wt = "/tmp/seed/%s" % ID
-out = "%s/out/%s" % (wt, n)
+base = "/tmp/seed/%s" % ID
+wt = base + "/wt" if os.path.isdir(base + "/wt") else base
+out = "%s/out/%s" % (base, n)
 env = dict(os.environ, GOFLAGS="-mod=mod", GOPROXY="off", GOSUMDB="off", GOTOOLCHAIN="local")
 def sh(cmd, cwd=wt, timeout=1800):
     p = subprocess.run(cmd, cwd=cwd, env=env, shell=True, stdout=subprocess.PIPE, stderr=subprocess.STDOUT, timeout=timeout)
